@@ -410,8 +410,18 @@ class FactSet:
             self.desugared = 0
             if not os.environ.get('ORV_NO_INLINE'):
                 from .normalize import desugar, opaque_tokens
-                for v in raw['functions'].values():
-                    if v.get('body') and (v.get('loc') or '').startswith(root) and opaque_tokens(v['body']):
+                try:
+                    with open(os.path.join(os.path.dirname(os.path.abspath(__file__)), 'inventory.json')) as fh:
+                        opq0 = json.load(fh).get('opaque') or {}
+                except FileNotFoundError:
+                    opq0 = {}
+
+                def candidate(k, v):
+                    # effectful algorithms / local lambdas always; pure quantifiers (any_of ..) only where the reviewed tree had fewer of them
+                    t = opaque_tokens(v['body'])
+                    return any(x != 'quant' for x in t) or t.count('quant') > list(opq0.get(k, ())).count('quant')
+                for k, v in raw['functions'].items():
+                    if v.get('body') and (v.get('loc') or '').startswith(root) and candidate(k, v):
                         for _ in range(3):          # a lambda put in place of its name may complete an algorithm call that is then a loop
                             v['body'], n = desugar(v['body'])
                             self.desugared += n
